@@ -422,8 +422,9 @@ def main(args):
     harness_problem = False
     # regressions of fixed findings: a fixed entry suppresses nothing
     for f in findings.load():
-        if f["property"] == PROP and f["status"] == "fixed" and f.get("regression"):
-            rpath = os.path.join(VERIF_DIR, f["regression"])
+        for rkey in ("regression", "regression2"):
+          if f["property"] == PROP and f["status"] == "fixed" and f.get(rkey):
+            rpath = os.path.join(VERIF_DIR, f[rkey])
             with open(rpath) as fh:
                 pl = json.load(fh)
             try:
